@@ -320,7 +320,7 @@ class _Ids:
     def reuse_or_new(self, rng, v, p_reuse=0.25):
         j = enc(v)
         if not _atomic(v) and not isinstance(v, (list, dict)) and rng.random() < p_reuse:
-            same = [i for i, jj in self.pool if jj == j]
+            same = [i for i, jj in self.pool if json.dumps(jj) == json.dumps(j)]      # 1 == True in Python, not here
             if same:
                 return {'id': rng.choice(same), 'v': j}
         return self.new(v)
@@ -462,6 +462,9 @@ def _directed():
         return [C(0, [], D(i, 0, N, default=5, bounds=b)), C(1, [0], D(i, 0, N, bounds=b)),
                 C(2, [0], D(i, 0, N, bounds=(0, 10))), C(3, [1], D(i, 0, N, bounds=b, doc='x')), C(4, [2, 1], D(i, 0, N))]
     case(ident)
+    # identity vs equality again: (1, 1) == (True, True), yet `incmax is True` is False, so the bound turns exclusive
+    case(lambda i: [C(0, [], D(i, 0, N, default=10, bounds=(0, 10))), C(1, [0], D(i, 0, N, inclusive_bounds=(1, 1))),
+                    C(2, [0], D(i, 0, N, inclusive_bounds=(True, True))), C(3, [0], D(i, 0, N, inclusive_bounds=(1, 1), default=9))])
     # multiple roots joined
     case(lambda i: [C(0, [], D(i, 0, I)), C(1, [], D(i, 0, N)), C(2, [0, 1], D(i, 0, I)), C(3, [1, 0], D(i, 0, N)),
                     C(4, [0, 1], D(i, 0, N)), C(5, [0, 1])])
@@ -539,7 +542,8 @@ def _rand_value(rng, slot, ptype, pool):
             return rng.choice([(0, None), (0, 2), (1, 3), (None, 2), (0, 5), None])
         return rng.choice([(0, 10), (0, 10), (0, 20), (0, 5), (1, 7), (6, 10), (None, 5), (2, None), (0.5, 7.5), (0, 3), None])
     if slot == 'inclusive_bounds':
-        return rng.choice([(True, True), (True, False), (False, True), (False, False)])
+        # (1, 1) == (True, True) but `inc is True` fails: equal-not-identical values that validate differently
+        return rng.choice([(True, True), (True, False), (False, True), (False, False), (True, True), (1, 1), (1, 0)])
     if slot == 'step':
         return rng.choice([None, 1, 2, 0.5])
     if slot == 'doc':
